@@ -43,7 +43,7 @@ def run_ilp(case):
     src = case["src"]
     out = []
     try:
-        ds = _impl["Dataset"].from_raw_list(am.raw_dataset(case["D"]))
+        ds = _impl["Dataset"].from_raw_list(am.raw_dataset(case["D"]), name="study")     # every dataset of a process bears the same name (two files with one base name)
         ss = _impl["SS"](core.scheme_float(B, T, unit))
         n = ds.nb_elements
         if src.startswith("pulp"):
